@@ -1,0 +1,75 @@
+//go:build verif
+
+package virtual
+
+// Hooks for external verification tooling (property C14: no call
+// leaves a lock behind). They only probe and report raw state; they
+// never decide anything.
+
+// VerifLockIsFree reports whether the mutex of a directory created by
+// NewInMemoryPrepopulatedDirectory() can currently be acquired. The
+// lock is released again immediately. Directories of other types are
+// reported as free.
+func VerifLockIsFree(d PrepopulatedDirectory) bool {
+	i, ok := d.(*inMemoryPrepopulatedDirectory)
+	if !ok {
+		return true
+	}
+	if !i.lock.TryLock() {
+		return false
+	}
+	i.lock.Unlock()
+	return true
+}
+
+// VerifLockProbeDirectoryState describes a directory without
+// initializing it: whether it has been marked as deleted, whether its
+// contents still have to be fetched, and its children by name (leaves
+// map to nil). If the lock of the directory cannot be acquired,
+// lockFree is false and nothing else is reported.
+func VerifLockProbeDirectoryState(d PrepopulatedDirectory) (lockFree, isDeleted, isUninitialized bool, children map[string]PrepopulatedDirectory) {
+	i, ok := d.(*inMemoryPrepopulatedDirectory)
+	if !ok {
+		return true, false, false, nil
+	}
+	if !i.lock.TryLock() {
+		return false, false, false, nil
+	}
+	defer i.lock.Unlock()
+	if i.initialContentsFetcher != nil {
+		return true, i.contents.isDeleted, true, nil
+	}
+	children = map[string]PrepopulatedDirectory{}
+	for _, entry := range i.contents.entriesMap {
+		if directory, _ := entry.child.GetPair(); directory != nil {
+			children[entry.name.String()] = directory
+		} else {
+			children[entry.name.String()] = nil
+		}
+	}
+	return true, i.contents.isDeleted, false, children
+}
+
+// VerifLockProbeSubdirectories returns the child directories of a
+// directory without initializing it. An uninitialized directory, or
+// one whose lock cannot be acquired, yields no children.
+func VerifLockProbeSubdirectories(d PrepopulatedDirectory) []PrepopulatedDirectory {
+	i, ok := d.(*inMemoryPrepopulatedDirectory)
+	if !ok {
+		return nil
+	}
+	if !i.lock.TryLock() {
+		return nil
+	}
+	defer i.lock.Unlock()
+	if i.initialContentsFetcher != nil {
+		return nil
+	}
+	var out []PrepopulatedDirectory
+	for entry := i.contents.entriesList.next; entry != nil && entry != &i.contents.entriesList; entry = entry.next {
+		if directory, _ := entry.child.GetPair(); directory != nil {
+			out = append(out, directory)
+		}
+	}
+	return out
+}
